@@ -302,7 +302,9 @@ impl Interp {
             }
             if self.or.result_tracking {
                 if let Some(op) = &node.op {
-                    if !op.is_custom() {
+                    // custom operations included: the executor passes a derivative exactly when an operand is tracked,
+                    // and with a derivative `Array::op` returns a tracked result
+                    {
                         let got = probe_tracked(self.ex.get(slot));
                         let want = self.m.handle(slot).tracked;
                         if got != want {
